@@ -792,7 +792,7 @@ func run(c *core.Ctx) error {
 		cfg = "Pushdown.thorough.cfg"
 	}
 	t0 := time.Now()
-	res := c.MustHold(core.TLCRun{Module: "Pushdown", Cfg: cfg, Keep: []string{"cases.ndjson"}, Workers: 4, Timeout: 15 * time.Minute})
+	res := c.MustHold(core.TLCRun{Module: "Pushdown", Cfg: cfg, Keep: []string{"cases.ndjson", "fold.ndjson"}, Workers: 4, Timeout: 15 * time.Minute})
 	if res == nil {
 		return nil
 	}
@@ -825,6 +825,15 @@ func run(c *core.Ctx) error {
 	c.Set("known_defect_cells_predicted", h.fnTaintPredicted)
 	c.Set("known_defect_cells_observed", h.fnTaintObserved)
 	c.Logf("function level: %d cells, the real buffer filter rejects %d frames, %d violations (%.1fs)", h.fnChecked, h.fnSkippedFrames, c.Violations(), time.Since(t0).Seconds())
+	t0 = time.Now()
+	foldLines, err := core.ReadNDJSON[foldLine](res, "fold.ndjson")
+	if err != nil {
+		return err
+	}
+	if err := h.foldLevel(foldLines); err != nil {
+		return err
+	}
+	c.Logf("case folding: %d cells replayed on the real evaluator and buffer filter, terms run as ZSON vs ZNG (%.1fs)", c.Count("evaluations")-int64(h.fnChecked), time.Since(t0).Seconds())
 	if h.fnSkippedFrames == 0 {
 		c.Inconclusive("vacuous: the real buffer filter never rejected a frame")
 	}
